@@ -182,6 +182,16 @@ def update_cache_names():
     return names
 
 
+def data_status_order():
+    """TransitData::getDataStatus: (collection tested for emptiness, status returned), in the order of the if-chain"""
+    td = strip_comments(src("src/transit_data.cpp"))
+    b = function_body(td, r"TransitData::getDataStatus\s*\(\s*\)\s*const\s*")
+    pairs = re.findall(r"if\s*\(\s*(?:/\*.*?\*/)?\s*(\w+)\.size\(\)\s*==\s*0\s*\)\s*\{\s*return\s+DataStatus::(\w+)\s*;", b)
+    if len(pairs) < 7: raise ValueError("getDataStatus: only %d tests recognised" % len(pairs))
+    if not re.search(r"return\s+DataStatus::READY\s*;\s*\}?\s*$", b.strip()): raise ValueError("getDataStatus does not end with READY")
+    return pairs
+
+
 def structural_facts():
     facts = {}
     cc = strip_comments(src("src/connection_cache.cpp"))
@@ -212,6 +222,27 @@ def structural_facts():
         facts["handler_%s_fast_error_first" % name] = bool(re.search(r"std::string\s+response\s*=\s*getFastErrorResponse\(dataStatus\);\s*if\s*\(!response\.empty\(\)\)", b))
     norm = lambda b: re.sub(r"\s+", " ", re.sub(r"ResultToV2SummaryResponse|ResultToV2Response", "R", re.sub(r"summary|route", "X", b)))
     facts["summary_mirrors_route"] = norm(handlers["route"]) == norm(handlers["summary"])
+    # --- refresh (/updateCache) and data status (C15, C17)
+    for fn, getter in (("updateSchedules", "getSchedules"), ("updateScenarios", "getScenarios")):
+        b = function_body(td, r"TransitData::%s\s*\(" % fn)
+        c = re.search(r"scenarioConnectionCache->clear\(\)\s*;", b)
+        g = re.search(r"dataFetcher\.%s\s*\(" % getter, b)
+        facts["%s_clears_cache_first" % fn] = bool(c) and bool(g) and c.start() < g.start()
+    b = function_body(cc, r"ScenarioConnectionCacheOne::clear\s*\(")
+    facts["cache_one_clear_resets_entry"] = bool(re.search(r"lastUuid\.reset\(\)\s*;", b)) and bool(re.search(r"lastConnection\.reset\(\)\s*;", b))
+    b = function_body(cc, r"ScenarioConnectionCacheAll::clear\s*\(")
+    facts["cache_all_clear_empties_map"] = bool(re.search(r"connectionSets\.clear\(\)\s*;", b))
+    upd = function_body(srv, r'server\.resource\["\^/updateCache\[/\]\?\$"\]\["GET"\]\s*=\s*\[[^\]]*\]\s*\([^)]*\)\s*')
+    m1 = re.search(r"if\s*\(atLeastOneCorrectCacheName\)\s*\{\s*dataStatus\s*=\s*transitData\.getDataStatus\(\)\s*;", upd)
+    facts["updateCache_recomputes_data_status"] = bool(m1) and bool(re.search(r"\[[^\]]*&dataStatus[^\]]*\]", srv[srv.find('"^/updateCache'):srv.find('"^/updateCache') + 200]))
+    facts["updateCache_answers_when_update_throws"] = bool(re.search(r"catch\s*\(const std::exception\s*&\s*\w+\)\s*\{.{0,300}?dataStatus\s*=\s*transitData\.getDataStatus\(\)", upd, re.S))
+    ub = function_body(td, r"TransitData::updateSchedules\s*\(")
+    facts["updateSchedules_regenerates_connections"] = bool(re.search(r"return\s+generateForwardAndReverseConnections\(\)\s*;", ub))
+    # the walking-router client keeps no state between calls (C20)
+    og = strip_comments(src("src/osrmgeofilter.cpp")); oh = strip_comments(src("include/osrmgeofilter.hpp"))
+    facts["osrm_client_per_call"] = bool(re.search(r"HttpClient\s+client\s*\(\s*host\s*\+", function_body(og, r"OsrmGeoFilter::getAccessibleNodesFootpathsFromPoint\s*\("))) and not re.search(r"\bstatic\b", og)
+    members = re.findall(r"^\s*(?:const\s+)?std::string\s+(\w+)\s*;", oh, re.M)
+    facts["osrm_filter_members_are_config_strings"] = sorted(members) == ["host", "mode", "port"] and not re.search(r"\bmutable\b|\bstatic\b", oh)
     calcs = strip_comments(src("connection_scan_algorithm/src/calculator.cpp") + src("connection_scan_algorithm/src/alternatives_routing.cpp") + src("connection_scan_algorithm/src/resets.cpp"))
     facts["no_static_state_in_calculator"] = not re.search(r"\bstatic\s+(?!const|std::string\s+\w+\()", calcs)
     return facts
@@ -252,6 +283,9 @@ def main():
     names = guard("update-cache-names", update_cache_names, [])
     L += ["/-- /updateCache: cache name -> update call, in handler order -/",
           "def updateCacheNames : List (String × String) := " + llist(names, lambda x: "(%s, %s)" % (lstr(x[0]), lstr(x[1]))), ""]
+    dso = guard("data-status-order", data_status_order, [])
+    L += ["/-- TransitData::getDataStatus: (collection tested for emptiness, status), in if-chain order; READY when none is empty -/",
+          "def dataStatusOrder : List (String × String) := " + llist(dso, lambda x: "(%s, %s)" % (lstr(x[0]), lstr(x[1]))), ""]
     facts = guard("structural-facts", structural_facts, {})
     L += ["/-- structural facts read off the source (see translator/extract.py) -/",
           "def facts : List (String × Bool) := " + llist(sorted(facts.items()), lambda x: "(%s, %s)" % (lstr(x[0]), "true" if x[1] else "false")), ""]
